@@ -61,6 +61,17 @@ func TestEngineCpc(t *testing.T) {
 		require.NoError(t, bk.SendCoinsFromModuleToAccount(ctx, minttypes.ModuleName, c.wallets[0].GetCosmosAddress(), coins))
 	}
 	senders := c.wallets[:5]
+	// deployers: the five wallets, then addresses that are never on a whitelist — the governance module account (the
+	// authority of the parameter message: a proposal could carry a deploy message signed by it), the cpc module
+	// account itself, the EVM module account
+	specialDeployers := []string{authtypes.NewModuleAddress(govtypes.ModuleName).String(), authtypes.NewModuleAddress(cpctypes.ModuleName).String(), authtypes.NewModuleAddress(evmtypes.ModuleName).String()}
+	deployerAddr := func(i int) string {
+		if i < len(senders) {
+			return senders[i].GetCosmosAddress().String()
+		}
+		return specialDeployers[i-len(senders)]
+	}
+	nDeployers := len(senders) + len(specialDeployers)
 	gov := authtypes.NewModuleAddress(govtypes.ModuleName).String()
 
 	const maxNonce = 400
@@ -255,8 +266,9 @@ func TestEngineCpc(t *testing.T) {
 		ak.SetModuleAccount(ctx, ma)
 		e, stk := r.Bool(), r.Bool()
 		var wlIDs []int
+		emptyWl := r.Chance(1, 4) // the default parameters: nobody may deploy
 		for i := range senders {
-			if r.Chance(3, 5) {
+			if !emptyWl && r.Chance(3, 5) {
 				wlIDs = append(wlIDs, i)
 			}
 		}
@@ -280,9 +292,9 @@ func TestEngineCpc(t *testing.T) {
 			var op, out string
 			switch k := r.Intn(100); {
 			case k < 40: // deploy ERC-20
-				si := r.Intn(len(senders))
+				si := r.Intn(nDeployers)
 				di := r.Intn(len(denoms))
-				req := &cpctypes.MsgDeployErc20ContractRequest{Authority: senders[si].GetCosmosAddress().String(), Name: "Tok" + strings.ReplaceAll(strings.ReplaceAll(denoms[di], " ", ""), "!", ""), Symbol: "TK", Decimals: uint32(1 + r.Intn(18)), MinDenom: denoms[di]}
+				req := &cpctypes.MsgDeployErc20ContractRequest{Authority: deployerAddr(si), Name: "Tok" + strings.ReplaceAll(strings.ReplaceAll(denoms[di], " ", ""), "!", ""), Symbol: "TK", Decimals: uint32(1 + r.Intn(18)), MinDenom: denoms[di]}
 				if r.Chance(1, 10) {
 					req.Decimals = uint32(hx.Pick(r, []int{0, 19, 255, 256, 262}))
 				}
@@ -323,8 +335,8 @@ func TestEngineCpc(t *testing.T) {
 					}
 				}
 			case k < 55: // deploy staking
-				si := r.Intn(len(senders))
-				req := &cpctypes.MsgDeployStakingContractRequest{Authority: senders[si].GetCosmosAddress().String(), Symbol: "STK", Decimals: 18}
+				si := r.Intn(nDeployers)
+				req := &cpctypes.MsgDeployStakingContractRequest{Authority: deployerAddr(si), Symbol: "STK", Decimals: 18}
 				if r.Chance(1, 8) {
 					req.Symbol = ""
 				}
